@@ -5,6 +5,7 @@ the results for all contents. See DESIGN.md §3 C08.
 """
 
 import collections
+import re
 import random
 
 import numpy as np
@@ -39,6 +40,10 @@ def transforms(case, rng):
     kw_b = {mp.get(k, k): v for k, v in case["kwargs"].items()}
     kw_b.update(case["opts"])
     out.append(("rename", [(op, case["desc"], base_args, kw_of(case), None)], [(op, R.rename_string(case["desc"], mp), base_args, kw_b, None)], None, []))
+    mp2 = R.make_renaming_lexical(case, rng)
+    kw_b2 = {mp2.get(k, k): v for k, v in case["kwargs"].items()}
+    kw_b2.update(case["opts"])
+    out.append(("rename-lexical", [(op, case["desc"], base_args, kw_of(case), None)], [(op, R.rename_string(case["desc"], mp2), base_args, kw_b2, None)], None, []))
     if explicit_out(case):
         # 2. input permutation
         cand = [i for i in range(n) if len(case["ins"][i]) >= 2]
@@ -136,6 +141,15 @@ def work(item):
     return {"status": "done", "results": results}
 
 
+def two_concats(desc):
+    """Some tensor expression of the description holds two or more concatenated axes."""
+    for side in desc.split("->"):
+        for expr in side.split(","):
+            if len(re.findall(r"\([^()]*\+[^()]*\)", expr)) >= 2:
+                return True
+    return False
+
+
 def expand_chain(chain, n):
     return [(op, desc, args, kw, be) for op, desc, args, kw, be in chain]
 
@@ -200,6 +214,12 @@ def main():
                     samples.append({"transform": r["transform"], "call_a": f"einx.{r['op']}({r['desc']!r})", "call_b": r["desc_b"], "verdict": r.get("verdict")})
             elif st_ == "violation":
                 sig = {"transform": r["transform"], "op": r["op"], "desc": r["desc"], "desc_b": r["desc_b"]}
+                err = str(r.get("error", ""))
+                # mechanism fields (known_findings.json): one side is rejected by einx.id's positional pairing of the
+                # blocks of an expression with two concatenated axes
+                sig["one_side_rejected_by_positional_block_pairing"] = bool(
+                    r["op"] == "id" and r["transform"] in ("permute-input", "permute-output") and "SemanticError" in err and "after decomposition of axis concatenations" in err and two_concats(r["desc"])
+                )
                 rep.violation(sig, r["replay"], f"{r['title']}\n{r.get('replay_out', '')[-700:]}")
             elif st_ == "not-reproduced":
                 if r["op"] in TOL_OPS or r["op"] in ("logaddexp",):
